@@ -5,9 +5,10 @@
 set -u
 ID=$1
 OUT=/tmp/seed/out/$ID
-WT=/tmp/seed/verify-wt
-export CARGO_TARGET_DIR=/tmp/seed/vtarget CARGO_NET_OFFLINE=true
-[ -d /tmp/seed/vtarget ] || cp -a /repo/target /tmp/seed/vtarget
+WT=${VWT:-/tmp/seed/verify-wt}
+VT=${VTARGET:-/tmp/seed/vtarget}
+export CARGO_TARGET_DIR=$VT CARGO_NET_OFFLINE=true
+[ -d $VT ] || cp -a /repo/target $VT
 [ -d $WT ] || git -C /repo worktree add --detach -q $WT HEAD
 cd $WT && git checkout -q --detach $(git -C /repo rev-parse HEAD) && git reset -q --hard && git clean -fdq
 ALWAYS="test_parse_url_or_path|create_deposit_with_rpc|create_glv_deposit_with_rpc|create_glv_withdrawal_with_rpc|create_order_with_rpc|create_withdrawal_with_rpc|get_token_accounts_by_owner|send_request"
